@@ -1,21 +1,24 @@
-// C16 conformance harness (part 2: fcppt.container helpers, fcppt::array, fcppt::tuple).
-// Drives and records only; spec/AlgorithmsJudge.tla (TLC) is the judge.
+// C16 conformance harness (parts "containers", "arrays", "tuples": fcppt.container helpers,
+// fcppt::array, fcppt::tuple).  Drives and records only; spec/AlgorithmsJudge.tla (TLC) is the judge.
+//
+// checks/c16.py compiles this file three times, once per section (-DC16_SECTION_CONTAINERS,
+// -DC16_SECTION_ARRAYS, -DC16_SECTION_TUPLES), so that a section whose fcppt headers no longer
+// compile against a changed tree does not take the other two with it.  Without any of the macros
+// all three sections are compiled.
+#if !defined(C16_SECTION_CONTAINERS) && !defined(C16_SECTION_ARRAYS) && !defined(C16_SECTION_TUPLES)
+#define C16_SECTION_CONTAINERS
+#define C16_SECTION_ARRAYS
+#define C16_SECTION_TUPLES
+#endif
+
 #include "c16_common.hpp"
 
+#ifdef C16_SECTION_CONTAINERS
 #include <fcppt/make_ref.hpp>
 #include <fcppt/reference.hpp>
-#include <fcppt/array/append.hpp>
-#include <fcppt/array/from_range.hpp>
-#include <fcppt/array/init.hpp>
-#include <fcppt/array/join.hpp>
-#include <fcppt/array/map.hpp>
-#include <fcppt/array/object.hpp>
-#include <fcppt/array/push_back.hpp>
 #include <fcppt/container/at_optional.hpp>
 #include <fcppt/container/find_opt_mapped.hpp>
 #include <fcppt/container/get_or_insert.hpp>
-#include <fcppt/container/get_or_insert_result.hpp>
-#include <fcppt/container/get_or_insert_with_result.hpp>
 #include <fcppt/container/join.hpp>
 #include <fcppt/container/key_set.hpp>
 #include <fcppt/container/map_values_copy.hpp>
@@ -25,11 +28,24 @@
 #include <fcppt/container/set_union.hpp>
 #include <fcppt/optional/object.hpp>
 #include <fcppt/optional/reference.hpp>
+#endif
+#ifdef C16_SECTION_ARRAYS
+#include <fcppt/array/append.hpp>
+#include <fcppt/array/from_range.hpp>
+#include <fcppt/array/init.hpp>
+#include <fcppt/array/join.hpp>
+#include <fcppt/array/map.hpp>
+#include <fcppt/array/object.hpp>
+#include <fcppt/array/push_back.hpp>
+#include <fcppt/optional/object.hpp>
+#endif
+#ifdef C16_SECTION_TUPLES
 #include <fcppt/tuple/concat.hpp>
 #include <fcppt/tuple/get.hpp>
 #include <fcppt/tuple/map.hpp>
 #include <fcppt/tuple/object.hpp>
 #include <fcppt/tuple/push_back.hpp>
+#endif
 
 #include <deque>
 #include <list>
@@ -47,6 +63,7 @@ namespace
 using ivec = std::vector<int>;
 using pvec = std::vector<std::pair<int, int>>;
 
+#ifdef C16_SECTION_CONTAINERS
 // ---------------------------------------------------------------- container::join
 template <typename Cont, typename Seq>
 Cont mk(Seq const &v)
@@ -100,6 +117,98 @@ void do_join_same(char const *kind, char const *sn, Seq const &pa, Seq const &pb
     Rec r("join");
     r.ks("kind", kind).ks("src", sn).ks("cat", "same").k("cs", "[" + seqj(pa) + "," + seqj(pb) + "," + seqj(pa) + "]").begin();
     Cont const res(fcppt::container::join(a, b, a));
+    r.k("r", seqj(res)).end();
+  }
+}
+
+// (round 3 audit) join of 4 and 5 containers (the variadic recursion of detail::join_all goes deeper
+// than with the <= 3 arguments above), lvalues, rvalues and a mix
+template <typename Cont>
+void do_join_many(char const *kind, char const *sn, std::vector<ivec> const &parts)
+{
+  std::string cs = "[";
+  for (std::size_t i = 0; i < parts.size(); ++i)
+  {
+    if (i) cs += ',';
+    cs += seqj(parts[i]);
+  }
+  cs += ']';
+  for (int cat = 0; cat < 3; ++cat)
+  {
+    Cont a(mk<Cont>(parts[0])), b(mk<Cont>(parts[1])), c(mk<Cont>(parts[2])), d(mk<Cont>(parts[3]));
+    Cont e(parts.size() > 4 ? mk<Cont>(parts[4]) : Cont());
+    Cont const &cb(b);
+    Rec r("join");
+    r.ks("kind", kind).ks("src", sn).ks("cat", cat == 0 ? "lvalue" : cat == 1 ? "rvalue" : "mixed").k("cs", cs).begin();
+    Cont res;
+    if (parts.size() == 4)
+      res = cat == 0   ? fcppt::container::join(a, cb, c, d)
+            : cat == 1 ? fcppt::container::join(std::move(a), std::move(b), std::move(c), std::move(d))
+                       : fcppt::container::join(a, std::move(b), c, std::move(d));
+    else
+      res = cat == 0   ? fcppt::container::join(a, cb, c, d, e)
+            : cat == 1 ? fcppt::container::join(std::move(a), std::move(b), std::move(c), std::move(d), std::move(e))
+                       : fcppt::container::join(std::move(a), cb, std::move(c), d, std::move(e));
+    r.k("r", seqj(res)).end();
+  }
+}
+
+void join_many_algos(bool const thorough)
+{
+  vj::Rng rng(4711U);
+  for (unsigned k = 0; k < (thorough ? 200U : 40U); ++k)
+  {
+    std::vector<ivec> parts, sets;
+    unsigned const n = 4U + k % 2U;
+    for (unsigned i = 0; i < n; ++i)
+    {
+      ivec v, sv;
+      unsigned const len = static_cast<unsigned>(rng.below(k % 5U == 0 ? 12U : 4U));
+      for (unsigned j = 0; j < len; ++j) v.push_back(static_cast<int>(rng.below(3)));
+      for (int x = 0; x < 6; ++x)
+        if (rng.below(3) == 0) sv.push_back(x);
+      parts.push_back(v);
+      sets.push_back(sv);
+    }
+    do_join_many<std::vector<int>>("seq", "vector", parts);
+    do_join_many<std::list<int>>("seq", "list", parts);
+    do_join_many<std::deque<int>>("seq", "deque", parts);
+    do_join_many<std::set<int>>("set", "set", sets);
+  }
+}
+
+// joins of 3 and 4 maps with keys 0..5 (an existing key keeps its mapped value)
+void join_maps_many()
+{
+  vj::Rng rng(555U);
+  for (unsigned k = 0; k < 40U; ++k)
+  {
+    std::vector<pvec> parts;
+    std::string cs = "[";
+    for (unsigned i = 0; i < 3U + k % 2U; ++i)
+    {
+      pvec ps;
+      for (int key = 0; key < 6; ++key)
+        if (rng.below(2) == 0) ps.emplace_back(key, static_cast<int>(rng.below(3)));
+      if (i) cs += ',';
+      cs += seqj(ps);
+      parts.push_back(ps);
+    }
+    cs += ']';
+    using map_t = std::map<int, int>;
+    map_t a(parts[0].begin(), parts[0].end());
+    map_t const b(parts[1].begin(), parts[1].end());
+    map_t c(parts[2].begin(), parts[2].end());
+    Rec r("join");
+    r.ks("kind", "map").ks("src", "map").ks("cat", k % 3U == 0 ? "lvalue" : "mixed").k("cs", cs).begin();
+    map_t res;
+    if (parts.size() == 3)
+      res = k % 3U == 0 ? fcppt::container::join(a, b, c) : fcppt::container::join(std::move(a), b, std::move(c));
+    else
+    {
+      map_t d(parts[3].begin(), parts[3].end());
+      res = k % 3U == 0 ? fcppt::container::join(a, b, c, d) : fcppt::container::join(a, b, std::move(c), std::move(d));
+    }
     r.k("r", seqj(res)).end();
   }
 }
@@ -162,6 +271,17 @@ void do_at_optional(char const *sn, ivec const &v)
   std::vector<std::size_t> idxs;
   for (std::size_t i = 0; i <= v.size() + 2; ++i) idxs.push_back(i);
   idxs.push_back(2147483647U);
+  // (round 3 audit) indices that only a 64-bit size_type can hold: an intermediate of a narrower type
+  // maps 2^32 + k to k; to_signed(2^63 + k) is negative.  The record carries the index clamped to 2^30
+  // (TLC integers are 32-bit; every index >= the size is "out of range" for the specification).
+  if constexpr (sizeof(std::size_t) > 4)
+  {
+    std::size_t const two32 = static_cast<std::size_t>(1) << 32U;
+    idxs.push_back(two32);
+    if (!v.empty()) idxs.push_back(two32 + v.size() - 1U);
+    idxs.push_back((static_cast<std::size_t>(1) << 63U) + (v.size() % 2U));
+    idxs.push_back(static_cast<std::size_t>(-1) - (v.size() % 3U));
+  }
   for (std::size_t const i : idxs)
   {
     {
@@ -249,17 +369,6 @@ void map_algos(char const *sn, pvec const &ps)
         Map m(base);
         std::string present;
         CreateF<Map> const f{UF(idx), &m, &present};
-        Rec r("get_or_insert_with_result");
-        r.ks("src", sn).k("m", mj).ki("k", k).k("ft", f.f.json()).ki("bump", bump).begin();
-        auto const res(fcppt::container::get_or_insert_with_result(m, k, f));
-        r.ki("elem", res.element()).kb("inserted", res.inserted());
-        res.element() += bump; // the result must refer to the element inside the container
-        r.k("present", "[" + present + "]").k("st", map_state(m)).end_log();
-      }
-      {
-        Map m(base);
-        std::string present;
-        CreateF<Map> const f{UF(idx), &m, &present};
         Rec r("get_or_insert");
         r.ks("src", sn).k("m", mj).ki("k", k).k("ft", f.f.json()).ki("bump", bump).begin();
         int &res(fcppt::container::get_or_insert(m, k, f));
@@ -284,6 +393,19 @@ void ordered_map_algos(pvec const &ps)
     Rec r("map_values_copy");
     r.ks("tgt", "vector").k("m", mj).begin();
     auto const res(fcppt::container::map_values_copy<std::vector<int>>(m));
+    r.k("r", seqj(res)).end();
+  }
+  {
+    std::unordered_map<int, int> const um(ps.begin(), ps.end());
+    Rec r("key_set");
+    r.ks("src", "unordered_map").ks("tgt", "set").k("m", mj).begin();
+    auto const res(fcppt::container::key_set<std::set<int>>(um));
+    r.k("r", seqj(res)).end();
+  }
+  {
+    Rec r("map_values_copy");
+    r.ks("tgt", "deque").k("m", mj).begin();
+    auto const res(fcppt::container::map_values_copy<std::deque<int>>(m));
     r.k("r", seqj(res)).end();
   }
   {
@@ -323,6 +445,8 @@ void ordered_map_algos(pvec const &ps)
 }
 
 // ---------------------------------------------------------------- set algebra
+void set_ops(ivec const &va, ivec const &vb);
+
 void set_algos(int universe)
 {
   unsigned const n = 1U << universe;
@@ -335,6 +459,26 @@ void set_algos(int universe)
         if (ma & (1U << i)) va.push_back(i);
         if (mb & (1U << i)) vb.push_back(i);
       }
+      set_ops(va, vb);
+    }
+  // (round 3 audit) sets of up to 16 elements, negative elements included
+  vj::Rng rng(99U);
+  for (unsigned k = 0; k < 60U; ++k)
+  {
+    ivec va, vb;
+    for (int x = -5; x <= 10; ++x)
+    {
+      if (rng.below(k % 3U + 2U) == 0) va.push_back(x);
+      if (rng.below(k % 4U + 2U) == 0) vb.push_back(x);
+    }
+    set_ops(va, vb);
+    set_ops(va, va);
+  }
+}
+
+void set_ops(ivec const &va, ivec const &vb)
+{
+    {
       std::set<int> const a(va.begin(), va.end());
       std::set<int> const b(vb.begin(), vb.end());
       std::string const aj = seqj(va), bj = seqj(vb);
@@ -359,6 +503,9 @@ void set_algos(int universe)
     }
 }
 
+#endif // C16_SECTION_CONTAINERS
+
+#ifdef C16_SECTION_ARRAYS
 // ---------------------------------------------------------------- arrays
 template <std::size_t N, std::size_t... Is>
 fcppt::array::object<int, N> mk_array(ivec const &v, std::size_t const off, std::index_sequence<Is...>)
@@ -506,6 +653,105 @@ void array_ternary()
   });
 }
 
+// (round 3 audit) join of 1, 2, 4 and 5 arrays (array::detail::join recurses over append from the left),
+// seeded element values
+template <std::size_t... Ns, std::size_t... Is>
+void array_join_sampled_one(ivec const &v, std::index_sequence<Is...>)
+{
+  constexpr std::size_t sizes[] = {Ns...};
+  std::size_t offs[sizeof...(Ns) + 1U] = {0};
+  for (std::size_t i = 0; i < sizeof...(Ns); ++i) offs[i + 1U] = offs[i] + sizes[i];
+  std::string as = "[";
+  for (std::size_t i = 0; i < sizeof...(Ns); ++i)
+  {
+    if (i) as += ',';
+    as += seqj(ivec(v.begin() + static_cast<std::ptrdiff_t>(offs[i]), v.begin() + static_cast<std::ptrdiff_t>(offs[i + 1U])));
+  }
+  as += ']';
+  {
+    Rec r("array_join");
+    r.ks("cat", "rvalue").ki("arity", static_cast<long long>(sizeof...(Ns))).k("as", as).begin();
+    auto const res(fcppt::array::join(mk_array<Ns>(v, offs[Is])...));
+    r.k("r", seqj(res)).end();
+  }
+#ifdef C16_APPEND_LVALUE
+  {
+    std::tuple<fcppt::array::object<int, Ns>...> const arrs{mk_array<Ns>(v, offs[Is])...};
+    Rec r("array_join");
+    r.ks("cat", "lvalue").ki("arity", static_cast<long long>(sizeof...(Ns))).k("as", as).begin();
+    auto const res(fcppt::array::join(std::get<Is>(arrs)...));
+    r.k("r", seqj(res)).end();
+  }
+#endif
+}
+
+template <std::size_t... Ns>
+void array_join_sampled(vj::Rng &rng, unsigned const count)
+{
+  for (unsigned k = 0; k < count; ++k)
+  {
+    ivec v;
+    for (std::size_t i = 0; i < (Ns + ... + 0U) + 1U; ++i) v.push_back(static_cast<int>(rng.below(3)));
+    array_join_sampled_one<Ns...>(v, std::make_index_sequence<sizeof...(Ns)>{});
+  }
+}
+
+// arrays beyond the exhaustive bound: seeded samples of map / push_back / init
+template <std::size_t N>
+void array_unary_sampled(vj::Rng &rng, unsigned const count)
+{
+  for (int idx = 1; idx < 27; idx += 5)
+  {
+    IdxF const f(idx);
+    Rec r("array_init");
+    r.ki("n", static_cast<long long>(N)).k("ft", f.json()).begin();
+    auto const res(fcppt::array::init<fcppt::array::object<int, N>>(f));
+    r.k("r", seqj(res)).end_log();
+  }
+  for (unsigned k = 0; k < count; ++k)
+  {
+    ivec v;
+    for (std::size_t i = 0; i < N; ++i) v.push_back(static_cast<int>(rng.below(3)));
+    std::string const xs = seqj(v);
+    for (int idx = static_cast<int>(rng.below(4)); idx < 27; idx += 4)
+    {
+      {
+        auto const a(mk_array<N>(v));
+        UF const f(idx);
+        Rec r("array_map");
+        r.ks("cat", "lvalue").k("xs", xs).k("ft", f.json()).begin();
+        auto const res(fcppt::array::map(a, f));
+        r.k("r", seqj(res)).end_log();
+      }
+      {
+        auto a(mk_array<N>(v));
+        UF const f(idx);
+        Rec r("array_map");
+        r.ks("cat", "rvalue").k("xs", xs).k("ft", f.json()).begin();
+        auto const res(fcppt::array::map(std::move(a), f));
+        r.k("r", seqj(res)).end_log();
+      }
+    }
+    int const x = static_cast<int>(rng.below(3));
+    {
+      auto a(mk_array<N>(v));
+      Rec r("array_push_back");
+      r.ks("cat", "rvalue").k("a", xs).ki("x", x).begin();
+      auto const res(fcppt::array::push_back(std::move(a), int{x}));
+      r.k("r", seqj(res)).end();
+    }
+#ifdef C16_APPEND_LVALUE
+    {
+      auto const a(mk_array<N>(v));
+      Rec r("array_push_back");
+      r.ks("cat", "lvalue").k("a", xs).ki("x", x).begin();
+      auto const res(fcppt::array::push_back(a, x));
+      r.k("r", seqj(res)).end();
+    }
+#endif
+  }
+}
+
 template <std::size_t N, typename Cont>
 void do_from_range(char const *sn, ivec const &v)
 {
@@ -525,6 +771,20 @@ void do_from_range(char const *sn, ivec const &v)
   }
 }
 
+// from_range<N> beyond N = 3: seeded sequences of length N - 1, N, N + 1
+template <std::size_t N>
+void from_range_sampled(vj::Rng &rng, unsigned const count)
+{
+  for (std::size_t len = N - 1U; len <= N + 1U; ++len)
+    for (unsigned k = 0; k < count; ++k)
+    {
+      ivec v;
+      for (std::size_t i = 0; i < len; ++i) v.push_back(static_cast<int>(rng.below(3)));
+      do_from_range<N, std::vector<int>>("vector", v);
+      do_from_range<N, std::deque<int>>("deque", v);
+    }
+}
+
 template <std::size_t N>
 void from_range_algos()
 {
@@ -534,6 +794,9 @@ void from_range_algos()
   });
 }
 
+#endif // C16_SECTION_ARRAYS
+
+#ifdef C16_SECTION_TUPLES
 // ---------------------------------------------------------------- tuples
 template <typename Tuple, std::size_t... Is>
 std::string tuple_json(Tuple const &t, std::index_sequence<Is...>)
@@ -605,6 +868,54 @@ void tuple_algos()
         fcppt::tuple::object<unsigned, int, int, long>{static_cast<unsigned>(v[0]), v[1], v[2], static_cast<long>(v[3])},
         seqj(v));
   });
+  // (round 3 audit) tuples beyond 4 elements (seeded) ...
+  {
+    vj::Rng rng(31337U);
+    for (unsigned k = 0; k < 10; ++k)
+    {
+      ivec v;
+      for (unsigned i = 0; i < 7; ++i) v.push_back(static_cast<int>(rng.below(3)));
+      ivec const w(v.begin(), v.begin() + 5);
+      do_tuple_unary(
+          fcppt::tuple::object<int, long, E3, unsigned, int>{
+              v[0], static_cast<long>(v[1]), static_cast<E3>(v[2]), static_cast<unsigned>(v[3]), v[4]},
+          seqj(w));
+      do_tuple_unary(
+          fcppt::tuple::object<long, int, int, E3, unsigned, int, long>{
+              static_cast<long>(v[0]), v[1], v[2], static_cast<E3>(v[3]), static_cast<unsigned>(v[4]), v[5],
+              static_cast<long>(v[6])},
+          seqj(v));
+      // ... and concat of 4 and 5 tuples
+      using ta = fcppt::tuple::object<int, long>;
+      using tb = fcppt::tuple::object<E3>;
+      using tc = fcppt::tuple::object<unsigned, int, int>;
+      using te = fcppt::tuple::object<>;
+      ta const a{v[0], static_cast<long>(v[1])};
+      tb const b{static_cast<E3>(v[2])};
+      tc const c{static_cast<unsigned>(v[3]), v[4], v[5]};
+      std::string const aj = tuple_json(a), bj = tuple_json(b), cj = tuple_json(c);
+      {
+        Rec r("tuple_concat");
+        r.ki("arity", 4).k("ts", "[" + bj + "," + aj + "," + cj + "," + bj + "]").begin();
+        auto const res(fcppt::tuple::concat(tb(b), ta(a), tc(c), tb(b)));
+        r.k("r", tuple_json(res)).end();
+      }
+      {
+        Rec r("tuple_concat");
+        r.ki("arity", 5).k("ts", "[" + aj + ",[]," + cj + "," + aj + "," + bj + "]").begin();
+        auto const res(fcppt::tuple::concat(ta(a), te{}, tc(c), ta(a), tb(b)));
+        r.k("r", tuple_json(res)).end();
+      }
+#ifdef C16_CONCAT_LVALUE
+      {
+        Rec r("tuple_concat");
+        r.ks("cat", "lvalue").ki("arity", 4).k("ts", "[" + cj + "," + aj + "," + bj + "," + cj + "]").begin();
+        auto const res(fcppt::tuple::concat(c, a, b, c));
+        r.k("r", tuple_json(res)).end();
+      }
+#endif
+    }
+  }
   // concat of 0..3 tuples
   {
     Rec r("tuple_concat");
@@ -662,11 +973,30 @@ void tuple_algos()
   });
 }
 
+#endif // C16_SECTION_TUPLES
+
+}
 }
 
-void run_containers(Sel &, bool const thorough)
+#ifdef C16_SECTION_CONTAINERS
+extern "C" void c16_part_containers(unsigned long long, int const thorough_flag)
 {
+  using namespace c16;
+  bool const thorough = thorough_flag != 0;
   join_algos(thorough);
+  join_many_algos(thorough);
+  join_maps_many();
+  {
+    // key_set / map_values on maps of 4..10 entries (keys 0..11)
+    vj::Rng rng(808U);
+    for (unsigned k = 0; k < 16U; ++k)
+    {
+      pvec ps;
+      for (int key = 0; key < 12; ++key)
+        if (rng.below(3) != 0) ps.emplace_back(key, static_cast<int>(rng.below(3)));
+      ordered_map_algos(ps);
+    }
+  }
   each_seq_upto(5, 3, [&](ivec const &v) {
     do_at_optional<std::vector<int>>("vector", v);
     do_at_optional<std::deque<int>>("deque", v);
@@ -686,6 +1016,13 @@ void run_containers(Sel &, bool const thorough)
     });
   }
   set_algos(thorough ? 5 : 4);
+}
+#endif
+
+#ifdef C16_SECTION_ARRAYS
+extern "C" void c16_part_arrays(unsigned long long, int)
+{
+  using namespace c16;
   array_unary<0>();
   array_unary<1>();
   array_unary<2>();
@@ -709,6 +1046,27 @@ void run_containers(Sel &, bool const thorough)
   from_range_algos<1>();
   from_range_algos<2>();
   from_range_algos<3>();
-  tuple_algos();
+  // (round 3 audit) sizes and arities beyond the exhaustive bound, seeded
+  vj::Rng rng(2024U);
+  array_unary_sampled<5>(rng, 6);
+  array_unary_sampled<6>(rng, 6);
+  array_unary_sampled<9>(rng, 4);
+  array_join_sampled<0>(rng, 1);
+  array_join_sampled<2>(rng, 5);
+  array_join_sampled<4>(rng, 5);
+  array_join_sampled<1, 2>(rng, 6);
+  array_join_sampled<3, 0>(rng, 4);
+  array_join_sampled<4, 4>(rng, 8);
+  array_join_sampled<1, 0, 2, 1>(rng, 10);
+  array_join_sampled<2, 2, 1, 3>(rng, 10);
+  array_join_sampled<1, 1, 1, 1, 1>(rng, 10);
+  array_join_sampled<2, 0, 3, 1, 2, 1>(rng, 10);
+  from_range_sampled<4>(rng, 8);
+  from_range_sampled<5>(rng, 8);
+  from_range_sampled<8>(rng, 6);
 }
-}
+#endif
+
+#ifdef C16_SECTION_TUPLES
+extern "C" void c16_part_tuples(unsigned long long, int) { c16::tuple_algos(); }
+#endif
